@@ -144,8 +144,16 @@ def run(ctx):
             for n_, v_ in k[0]:
                 if "total_nb_transfer" in n_:
                     o5 = 1 if v_ > 0 else -1
-    polarity.check_table(r5, t5, lambda sc: sc["allow"] == 0 or sc["total"] * o5 > 0, "can_transfer_be_stopped", loc(f.sp),
-                         require_labels=("total", "allow"))
+    if "allow" not in t5.labels_found():
+        # the same test written on the option's shape: `matches!(x, Some(true))`, `if let Some(true) = x`, `x.unwrap_or(false)` …
+        AL = r"allow_immediate_stop_before_first_transfer"
+        t5 = polarity.Table(f, name_sign={"total": r"total_nb_transfer"},
+                            name_bool={"allow_some": AL + r"\)? is Some$", "allow_val": AL + r"(@Some\.0|\)@Some\.0)$"})
+        polarity.check_table(r5, t5, lambda sc: (sc["allow_some"] and sc["allow_val"]) or sc["total"] * o5 > 0, "can_transfer_be_stopped", loc(f.sp),
+                             require_labels=("total", "allow_some", "allow_val"))
+    else:
+        polarity.check_table(r5, t5, lambda sc: sc["allow"] == 0 or sc["total"] * o5 > 0, "can_transfer_be_stopped", loc(f.sp),
+                             require_labels=("total", "allow"))
     # the accessor returns the never-reset field
     g = prog.fn(FD + "::total_nb_transfer")
     ctx.analysed(g.path)
